@@ -6,8 +6,9 @@
 (*              operators, delimiters, identifiers, literals, quote characters and 2-/3-byte    *)
 (*              characters;                                                                     *)
 (*  mutations - from each valid seed text: truncation at every point, deletion, duplication,    *)
-(*              adjacent swap and insertion of every alphabet token at every position (depth    *)
-(*              MaxMut), and wrapping in long prefix chains (`!!!!..`, `((((..`, `[[[[..`).     *)
+(*              adjacent swap, and insertion / replacement of every alphabet token at every     *)
+(*              position (depth MaxMut), each joined by blanks, by newlines and by nothing,     *)
+(*              and wrapping in long prefix chains (`!!!!..`, `((((..`, `[[[[..`).              *)
 (* An input is a token sequence plus an optional (character, count) prefix chain; the harness   *)
 (* joins the tokens with the chosen separator and feeds the text to all ten entry points.       *)
 EXTENDS Naturals, Sequences, TLC, Json
@@ -16,7 +17,9 @@ CONSTANTS MaxSoup, MaxMut, Chains
 
 Alphabet == << "rule", "\"R\"", "{", "}", "when", "then", "A.x", ">", "==", "5", "\"s\"", "&&", "||", "!", "(", ")", ";", "=", "+", "-",
                "*", "/", "%", "salience", "no-loop", "true", "<MB2>", "<MB3>", "\"", "'", ",", "query", "goal:", "NOT", "OR", "WHERE",
-               "count", "?x", "from", "stream", "over", "window", "5 min", "sliding", "[", "]", ".", "$", "<NUL>", "-2147483648", "1e999" >>
+               "count", "?x", "from", "stream", "over", "window", "min", "sliding", "[", "]", ".", "$", "<NUL>", "-2147483648", "1e999",
+               "<NL>", "<TAB>", "//", "/*", "*/", "\"a rule\"", "99999999999999999999999", "ms", ":", "tumbling", "\\", "on-success:", "R1",
+               "defmodule", "import:", "export:", "all", "accumulate", "exists", "retract", "#", "18446744073709551615", "hours" >>
 Tok(s) == CHOOSE i \in DOMAIN Alphabet : Alphabet[i] = s
 Seeds == << <<"rule", "\"R\"", "salience", "5", "no-loop", "true", "{", "when", "A.x", ">", "5", "&&", "!", "(", "A.x", "==", "\"s\"", ")", "then", "A.x", "=", "A.x", "+", "5", ";", "}">>,
             <<"query", "\"R\"", "{", "goal:", "A.x", "==", "true", "}">>,
@@ -25,7 +28,10 @@ Seeds == << <<"rule", "\"R\"", "salience", "5", "no-loop", "true", "{", "when", 
             <<"count", "(", "?x", ")", "WHERE", "A.x", "(", "?x", ")">>,
             <<"(", "A.x", "==", "5", "OR", "A.x", "==", "true", ")">>,
             <<"A.x", "(", "?x", ")", "WHERE", "(", "A.x", "(", "?x", ")", "WHERE", "A.x", "(", "?x", ")", ")">>,
-            <<"A.x", ":", "from", "stream", "(", "\"s\"", ")", "over", "window", "(", "5 min", ",", "sliding", ")">> >>
+            <<"R1", ":", "R1", "from", "stream", "(", "\"s\"", ")", "over", "window", "(", "5", "min", ",", "sliding", ")">>,
+            <<"rule", "R1", "\"a rule\"", "salience", "5", "{", "when", "A.x", ">", "5", "then", "A.x", "=", "5", ";", "}">>,
+            <<"query", "\"R\"", "{", "goal:", "A.x", "==", "true", "<NL>", "on-success:", "{", "A.x", "=", "5", ";", "}", "<NL>", "}">>,
+            <<"defmodule", "R1", "{", "export:", "all", "}", "rule", "\"R\"", "{", "when", "A.x", "==", "5", "then", "retract", "(", "A.x", ")", ";", "}", "//", "R1">> >>
 
 VARIABLES mode, toks, nmut, last
 vars == <<mode, toks, nmut, last>>
@@ -34,21 +40,24 @@ Lbl(t, sep, c, n) == [op |-> "text", toks |-> t, sep |-> sep, chain |-> c, n |->
 
 Append1(t) == /\ mode \in {"empty", "soup"} /\ Len(toks) < MaxSoup /\ mode' = "soup" /\ toks' = Append(toks, t) /\ UNCHANGED nmut
               /\ last' = Lbl(toks', IF Len(toks') % 2 = 0 THEN " " ELSE "", "", 0)
-Load(k) == /\ mode = "empty" /\ mode' = "seed" /\ toks' = Seeds[k] /\ UNCHANGED nmut /\ last' = Lbl(toks', " ", "", 0)
+Load(k) == /\ mode = "empty" /\ mode' = "seed" /\ toks' = Seeds[k] /\ UNCHANGED nmut /\ \E sp \in {" ", "\n"} : last' = Lbl(toks', sp, "", 0) @@ [seed |-> k]
 CanMut == mode = "seed" /\ nmut < MaxMut
-Mut(t2, what) == /\ CanMut /\ toks' = t2 /\ nmut' = nmut + 1 /\ UNCHANGED mode /\ last' = Lbl(t2, IF what = "tight" THEN "" ELSE " ", "", 0)
+(* every mutation is rendered with the tokens joined by a blank, by a newline, and (insertions) by nothing *)
+Mut(t2, what) == /\ CanMut /\ toks' = t2 /\ nmut' = nmut + 1 /\ UNCHANGED mode
+                 /\ \E sp \in (IF what = "tight" THEN {"", " ", "\n"} ELSE {" ", "\n"}) : last' = Lbl(t2, sp, "", 0)
 Truncate(i) == i \in 0..(Len(toks) - 1) /\ Mut(SubSeq(toks, 1, i), "x")
 Delete(i)   == i \in DOMAIN toks /\ Mut(SubSeq(toks, 1, i - 1) \o SubSeq(toks, i + 1, Len(toks)), "x")
 Dup(i)      == i \in DOMAIN toks /\ Mut(SubSeq(toks, 1, i) \o SubSeq(toks, i, Len(toks)), "x")
 Swap(i)     == i \in 1..(Len(toks) - 1) /\ Mut([toks EXCEPT ![i] = toks[i + 1], ![i + 1] = toks[i]], "x")
-Insert(i, t) == i \in 0..Len(toks) /\ Mut(SubSeq(toks, 1, i) \o <<t>> \o SubSeq(toks, i + 1, Len(toks)), IF i % 2 = 0 THEN "tight" ELSE "x")
+Insert(i, t) == i \in 0..Len(toks) /\ Mut(SubSeq(toks, 1, i) \o <<t>> \o SubSeq(toks, i + 1, Len(toks)), "tight")
+Replace(i, t) == i \in DOMAIN toks /\ toks[i] # t /\ Mut([toks EXCEPT ![i] = t], "x")
 (* prefix chains of a single character, up to the full 4 KiB length; toks unchanged *)
 Chain(c, n) == /\ mode = "seed" /\ nmut = 0 /\ UNCHANGED <<mode, toks, nmut>> /\ last' = Lbl(toks, " ", c, n)
 
 Next == \/ \E k \in DOMAIN Alphabet : Append1(Alphabet[k])
         \/ \E k \in DOMAIN Seeds : Load(k)
         \/ \E i \in 0..40 : Truncate(i) \/ Delete(i) \/ Dup(i) \/ Swap(i)
-        \/ \E i \in 0..40, k \in DOMAIN Alphabet : Insert(i, Alphabet[k])
+        \/ \E i \in 0..40, k \in DOMAIN Alphabet : Insert(i, Alphabet[k]) \/ Replace(i, Alphabet[k])
         \/ \E c \in {"!", "(", "[", "{", "-", "\"", "<MB3>", "NOT "}, n \in Chains : Chain(c, n)
 Spec == Init /\ [][Next]_vars
 Obs == [ok |-> TRUE]
